@@ -42,6 +42,17 @@ PATTERNS = [
     lambda: PTyped("x", "Foo"),
     lambda: PTup([PTyped("x", "Number"), PTyped("y", "String")]),
     lambda: PTup([PLit(Null()), PId("y")]),
+    # nested container followed by further patterns (the nested pattern's last element is not the last pattern)
+    lambda: PTup([PTup([PLit(Int(1)), PLit(Int(2))]), PLit(Int(4))]),
+    lambda: PTup([PTup([PLit(Int(1)), PLit(Int(2))]), PLit(Int(3))]),
+    lambda: PTup([PTup([PLit(Int(1)), PId("b")]), PLit(Int(3))]),
+    lambda: PTup([PTup([PId("a")], "last", ""), PLit(Int(4))]),
+    lambda: PTup([PMap(["zz"]), PId("c")]),
+    lambda: PTup([PLit(Int(1)), PLit(Int(2))]),
+    lambda: PTup([PLit(Int(1)), PLit(Int(3))]),
+    # map patterns with ignored rebinds: the key must still be present
+    lambda: PMap(["a"], ["_"]), lambda: PMap(["zz"], ["_"]), lambda: PMap(["zz", "a"], ["_skip", "q"]),
+    lambda: PMap(["a", "zz"], ["q", "_"]),
 ]
 
 
@@ -89,6 +100,28 @@ def match_matrix(rng=None, sample=None):
             e = None
         yield Block([Asg("s", SUBJECTS[si][1]()), Asg("r", Match(Id("s"), arms, e)), Core("print", [Id("r")]),
                      Core("print", [Id("s")]), Id("r")])
+
+
+def match_alternatives(rng=None, sample=None):
+    """Each pattern as the first of two alternatives (followed by one that never matches / always matches /
+    a literal), and as the second alternative; with and without a guard."""
+    cases = []
+    for si in range(len(SUBJECTS)):
+        for pi in range(len(PATTERNS)):
+            for other in ("never", "lit5", "any"):
+                for order in (0, 1):
+                    for guard in ("none", "false", "true"):
+                        cases.append((si, pi, other, order, guard))
+    if sample is not None and rng is not None and len(cases) > sample:
+        cases = rng.sample(cases, sample)
+    for si, pi, other, order, guard in cases:
+        reset_ids()
+        pat = PATTERNS[pi]()
+        o = {"never": PLit(Str("never")), "lit5": PLit(Int(5)), "any": PWild("_")}[other]
+        pats = [pat, o] if order == 0 else [o, pat]
+        g = None if guard == "none" else Bool(guard == "true")
+        arms = [Arm(pats, arm_body("HIT", []), g), Arm([PId("other")], arm_body("REST", []))]
+        yield Block([Asg("s", SUBJECTS[si][1]()), Asg("r", Match(Id("s"), arms)), Core("print", [Id("r")]), Id("r")])
 
 
 def match_random(rng, n):
